@@ -511,3 +511,107 @@ func HC05_linkDeleteUnique() {
 	}
 	vfAssert(got.t == want, "C05/link-delete-removes-exactly-the-rows-with-the-same-keys")
 }
+
+// HC05_selectKeys: a table with one to three _SELECT KEY directives (one or two columns each): every
+// directive yields its own select and delete functions, named after its columns in order, whose
+// condition compares exactly those columns with $1..$n and whose arguments are those columns' variables.
+func HC05_selectKeys() {
+	pkg := skelPkg()
+	named := skelNamed(pkg, "Item", types.NewStruct(nil, nil))
+	colNames := []string{"Name", "Age", "Town", "Zip", "Rank"}
+	fields := []skelField{{name: "Id", typ: &an.Basic{B: types.Typ[types.Int64]}}}
+	for i, c := range colNames {
+		ty := an.Type(an.Int)
+		if i%2 == 0 {
+			ty = an.String
+		}
+		fields = append(fields, skelField{name: c, typ: ty})
+	}
+	st := skelStruct(pkg, named, fields)
+	keySets := [][]string{{"Name"}, {"Name", "Age"}, {"Town", "Zip"}, {"Rank"}, {"Zip", "Rank"}}
+	nk := 1 + vfChoice("keys", 3)
+	var keys [][]string
+	for i := 0; i < nk; i++ {
+		k := keySets[vfChoice(fmt.Sprint("key", i), len(keySets))]
+		for _, o := range keys {
+			vfAssume(strings.Join(o, ",") != strings.Join(k, ","))
+		}
+		keys = append(keys, k)
+		st.Comments = append(st.Comments, an.SpecialComment{Kind: an.CommentSQL, Content: "_SELECT KEY(" + strings.Join(k, ", ") + ")"})
+	}
+	ana := &an.Analysis{Pkg: &packages.Package{PkgPath: pkg.Path(), Types: pkg}, Types: map[types.Type]an.Type{named: st}, Source: []types.Type{named}}
+	text := skelDeclsText(Generate(ana, false))
+	ok := true
+	for _, k := range keys {
+		title := strings.Join(k, "And")
+		var cmp, vars []string
+		for i, c := range k {
+			cmp = append(cmp, fmt.Sprint(c, " = $", i+1))
+			vars = append(vars, gen.ToLowerFirst(c))
+		}
+		for _, verb := range []string{"Select", "Delete"} {
+			head := "func " + verb + "ItemsBy" + title + "(tx DB, "
+			n := strings.Count(text, head)
+			if n != 1 {
+				vfObserve("functions", fmt.Sprint(verb, "ItemsBy", title, " declared ", n, " times"))
+				ok = false
+				continue
+			}
+			body := text[strings.Index(text, head):]
+			body = body[:strings.Index(body, "\n\t\t}")]
+			ok = ok && strings.Contains(body, " WHERE "+strings.Join(cmp, " AND ")) && strings.Contains(body, "\", "+strings.Join(vars, ", ")+")")
+		}
+	}
+	vfAssert(ok, "C05/every-select-key-has-its-own-functions-comparing-its-own-columns")
+	vfAssert(strings.Count(text, "func SelectItemsBy") == len(keys) && strings.Count(text, "func DeleteItemsBy")-strings.Count(text, "func DeleteItemsByIDs(") == len(keys), "C05/no-other-by-key-function")
+}
+
+// HC05_composite: a composite column (a struct of integers, some fields unexported, hidden from JSON
+// or ignored): the CREATE TYPE of the schema, the record written by Value() and the record read by
+// Scan() have the same number of fields, read at the indices 0..n-1.
+func HC05_composite() {
+	variants := []string{
+		"type Position struct {\n\tX int\n\tY int\n\tZ int\n}\n",
+		"type Position struct {\n\tX int\n\tside int\n\tZ int\n}\n",
+		"type Position struct {\n\tX int\n\tHidden int `json:\"-\"`\n\tZ int `gomacro:\"ignore\"`\n\tW int\n}\n",
+		"type Position struct {\n\tonly int\n}\n",
+	}
+	src := "package p\n\n" + variants[vfChoice("composite", len(variants))] + "\ntype Item struct {\n\tId int64\n\tP Position\n}\n"
+	pkg := vfTypeCheck("example.com/mod/p", []string{"/m/p/p.go"}, []string{src}, nil)
+	var text, schema string
+	panicked, rt, msg := vfCatch(func() {
+		ana := an.NewAnalysisFromFile(pkg, "/m/p/p.go")
+		text = skelDeclsText(Generate(ana, false))
+		schema = skelDeclsText(gensql.Generate(ana))
+	})
+	vfObserve("outcome", msg)
+	vfAssert(!rt, "C05/composite-generation-no-runtime-error")
+	if panicked {
+		vfStop()
+	}
+	// the schema
+	i := strings.Index(schema, "CREATE TYPE ")
+	vfAssert(i >= 0, "C05/composite-type-is-created-by-the-schema")
+	if i < 0 {
+		return
+	}
+	decl := schema[i:]
+	decl = decl[strings.Index(decl, "(")+1 : strings.Index(decl, ");")]
+	nSchema := len(strings.Split(decl, ","))
+	// Value()
+	v := text[strings.Index(text, "func (s Position) Value()"):]
+	v = v[:strings.Index(v, "\n\t\t\t}")]
+	nPlaceholders := strings.Count(v, "%d")
+	nSelectors := strings.Count(v, "s.")
+	// Scan()
+	sc := text[strings.Index(text, "func (s *Position) Scan("):]
+	sc = sc[:strings.Index(sc, "func (s Position) Value()")]
+	okScan := strings.Contains(sc, fmt.Sprint("len(fields) != ", nSchema))
+	for k := 0; k < nSchema; k++ {
+		okScan = okScan && strings.Count(sc, fmt.Sprint("fields[", k, "]")) == 1
+	}
+	okScan = okScan && !strings.Contains(sc, fmt.Sprint("fields[", nSchema, "]"))
+	vfObserve("counts", fmt.Sprint(nSchema, " ", nPlaceholders, " ", nSelectors))
+	vfAssert(nPlaceholders == nSchema && nSelectors == nSchema, "C05/composite-value-writes-one-value-per-field-of-the-sql-type")
+	vfAssert(okScan, "C05/composite-scan-reads-one-value-per-field-of-the-sql-type")
+}
